@@ -75,19 +75,19 @@ func (u *UEPolicySectionManagementSubResult) SetPlmnDigit(mcc, mnc int) error {
 	if *u.Mnc < 9 || *u.Mcc > 999 {
 		return fmt.Errorf("MCC must be positive 2 or 3-digit, mnc:%d", u.Mnc)
 	}
-	// PlmnDigit1
-	u.PlmnDigit1 = (uint8((*u.Mcc%100)/10) << 4) | (uint8(*u.Mcc % 10))
-
-	// PlmnDigit2
+	// TS 24.008 10.5.1.13: digit 1 is the most significant (leftmost) decimal digit
+	mccDig1, mccDig2, mccDig3 := uint8(*u.Mcc/100), uint8((*u.Mcc%100)/10), uint8(*u.Mcc%10)
+	// PlmnDigit1 = MCC digit 2 | MCC digit 1
+	u.PlmnDigit1 = (mccDig2 << 4) | mccDig1
 	if *u.Mnc < 100 {
-		u.PlmnDigit2 = (0xF0) | (uint8(*u.Mcc / 100))
+		// two-digit MNC: MNC digit 3 is coded as "1111"
+		u.PlmnDigit2 = (0xF0) | mccDig3
+		u.PlmnDigit3 = (uint8(*u.Mnc%10) << 4) | uint8(*u.Mnc/10)
 	} else {
-		u.PlmnDigit2 = (uint8(*u.Mnc/100) << 4) | (uint8(*u.Mcc / 100))
+		// PlmnDigit2 = MNC digit 3 | MCC digit 3, PlmnDigit3 = MNC digit 2 | MNC digit 1
+		u.PlmnDigit2 = (uint8(*u.Mnc%10) << 4) | mccDig3
+		u.PlmnDigit3 = (uint8((*u.Mnc%100)/10) << 4) | uint8(*u.Mnc/100)
 	}
-
-	// PlmnDigit3
-	u.PlmnDigit3 = (uint8((*u.Mnc%100)/10) << 4) | (uint8(*u.Mnc % 10))
-
 	return nil
 }
 
@@ -161,10 +161,11 @@ func parseUEPlcSubResult(buf *bytes.Buffer) (*UEPolicySectionManagementSubResult
 	if mccDig3 > 9 {
 		return nil, fmt.Errorf("MCC Digit3 larger than 9")
 	}
+	twoDigitMnc := false
 	if mncDig3 > 9 {
 		if mncDig3 == 15 {
 			// If a network operator decides to use only two digits in the MNC, MNC digit 3 shall be coded as "1111"
-			mncDig3 = 0
+			twoDigitMnc = true
 		} else {
 			return nil, fmt.Errorf("MNC Digit3 larger than 9")
 		}
@@ -185,8 +186,13 @@ func parseUEPlcSubResult(buf *bytes.Buffer) (*UEPolicySectionManagementSubResult
 	}
 	u.Mcc = new(int)
 	u.Mnc = new(int)
-	*u.Mcc = int(mccDig1) + int(mccDig2)*10 + int(mccDig3)*100
-	*u.Mnc = int(mncDig1) + int(mncDig2)*10 + int(mncDig3)*100
+	// digit 1 is the most significant decimal digit (TS 24.008 10.5.1.13)
+	*u.Mcc = int(mccDig1)*100 + int(mccDig2)*10 + int(mccDig3)
+	if twoDigitMnc {
+		*u.Mnc = int(mncDig1)*10 + int(mncDig2)
+	} else {
+		*u.Mnc = int(mncDig1)*100 + int(mncDig2)*10 + int(mncDig3)
+	}
 
 	// UEPolicySectionManagementSubResultContents
 	if int(u.Len-3) < 0 {
